@@ -53,3 +53,29 @@ PROPS["C01"] = {
         ],
     },
 }
+
+PROPS["C02"] = {
+    "pkg": "c02", "level": "exploration",
+    "technique": "property-based testing (rapid): real key generation runs (CMP with injected safe primes, FROST, FROST-Taproot, Doerner) under generated (n, t, identifier "
+                 "family, schedule); oracle = byte-equality of every party's public table, own-share/table match and exhaustive (t+1)-subset Lagrange reconstruction computed "
+                 "with math/big, both on secrets and in the exponent",
+    "level_text": "Each generated keygen session must complete and yield one consistent sharing: identical group key and public table at all parties, own secret matching own "
+                  "entry, and EVERY subset of t+1 parties (exhaustively enumerated per session) reconstructing the reported key, checked with an independent reference.",
+    "level_note": "CMP keygen uses the verif prime-source hook (primes from a fixed pool of validated safe Blum primes) - the prime search itself is not exercised. Random search "
+                  "over configurations/schedules; CMP volumes small.",
+    "rule": "case = (scheme, n, t, identifier family, schedule shape); non-trivial iff t < n-1, or identifiers are not single letters, or the schedule reorders/duplicates; "
+            "distinct = distinct class keys; counters.reconstruction_subsets = number of (t+1)-subsets checked",
+    "assumptions": ["safe primes are injected through hook H1", "reference Lagrange/curve arithmetic is correct"],
+    "tiers": {
+        "quick": [
+            {"run": "^TestFrost$", "checks": 1200, "shards": 5},
+            {"run": "^TestDoerner$", "checks": 120, "shards": 3},
+            {"run": "^TestCMP$", "checks": 16, "shards": 16, "timeout": 1500},
+        ],
+        "thorough": [
+            {"run": "^TestFrost$", "checks": 40000, "shards": 6},
+            {"run": "^TestDoerner$", "checks": 4000, "shards": 4},
+            {"run": "^TestCMP$", "checks": 480, "shards": 16, "timeout": 9000},
+        ],
+    },
+}
